@@ -325,7 +325,9 @@ namespace pika {
         restore_interruption::restore_interruption(disable_interruption& d)
           : interruption_was_enabled_(d.interruption_was_enabled_)
         {
-            if (!interruption_was_enabled_)
+            // re-establish, for the lifetime of this object, the state d found: interruption is
+            // enabled again only if it was enabled before d disabled it
+            if (interruption_was_enabled_)
             {
                 interruption_was_enabled_ = threads::detail::set_thread_interruption_enabled(
                     pika::threads::detail::get_self_id(), true);
